@@ -43,12 +43,66 @@ MATCHERS = {}
 
 # ---- generator ------------------------------------------------------------------------------------------
 
+RATES = [100.0, 30000.0, 25000.0, 128.0, 2000.0,
+         30000.207, 29999.954, 30000.5, 29999.999999999996, 123456.78125, 2.5e4 + 2 ** -20,
+         0.5, 0.1, 0.999, 1e-3, 1.5]
+
+
+def _none(n):
+    return {'wm': [False] * n, 'wmi': [False] * n, 'sim': [False] * n}
+
+
+def _boundary_cases(rng, tier):
+    """Template / channel / probe counts around block sizes (a writer that works by chunks of 32/64/128 rows or
+    columns, a buffer reused across probes): a probe with 63/64/65/70/128/130 templates followed by probes with 1, few
+    and many templates; wide probes (33..130 channels); many probes.  Waveforms stay tiny (2 samples x 1..3 channels),
+    one-column tables, no similarity matrix except where noted, so that the Coq literal stays small."""
+    small = dict(route='methods', ns=2, pcw=1, tfw=1, stmode='all')
+    out = []
+
+    def add(sizes, **kw):
+        o = dict(small)
+        o.update(kw)
+        if 'present' not in o:
+            o['present'] = _none(len(sizes))
+        out.append(_case(rng, sizes, **o))
+    add([(2, 70), (3, 40)])                       # remainder 6, follower 40 > 6
+    add([(2, 65), (1, 3), (2, 2)], present={'wm': [True] * 3, 'wmi': [False] * 3, 'sim': [True] * 3})
+    add([(1, 64), (2, 65), (2, 66)])
+    add([(2, 63), (2, 64), (1, 1)])
+    add([(1, 130), (2, 1), (2, 5)])               # remainder 2: followers with 1 (unaffected) and 5 templates
+    add([(2, 128), (1, 1), (2, 66), (1, 2)], route='merge')
+    add([(65, 1), (2, 2), (33, 2)])               # wide probes
+    add([(3, 2), (130, 1), (1, 3)], ns=1)
+    for k in (8, 12):                             # many probes
+        add([(rng.randint(1, 2), rng.randint(1, 2)) for _ in range(k)], ns=rng.choice([1, 2]))
+    if tier != 'quick':
+        big = [31, 32, 33, 63, 64, 65, 70, 96, 127, 128, 129, 130, 192, 200, 257]
+        for a in big:
+            for b in (1, 3, 40, 70):
+                add([(rng.randint(1, 3), a), (rng.randint(1, 3), b), (1, rng.choice([1, 2, 9]))])
+        for _ in range(40):
+            k = rng.choice([2, 3, 3, 4])
+            add([(rng.randint(1, 3), rng.choice(big + [1, 2, 5, 20])) for _ in range(k)],
+                route=rng.choice(['methods', 'methods', 'merge']), stmode=rng.choice(['all', 'trailing', 'random']))
+        for a in (31, 32, 33, 64, 65, 100, 128, 129):
+            add([(a, rng.randint(1, 2)), (rng.randint(1, 3), 2), (rng.choice(big[:9]), 1)], ns=rng.choice([1, 2]))
+        for k in (6, 9, 16, 20):
+            add([(rng.randint(1, 3), rng.randint(1, 3)) for _ in range(k)])
+    return out
+
 def _case(rng, sizes, route=None, vec2d=None, **o):
     """sizes = [(nc, nt), ...]"""
-    ns = o.pop('ns', rng.choice([2, 3]))
+    ns = o.pop('ns', rng.choice([1, 2, 2, 3, 3, 4]))
     pcw = o.pop('pcw', rng.choice([1, 2, 2, 3]))
     tfw = o.pop('tfw', rng.choice([1, 2, 2, 3]))
-    rate = o.pop('rate', rng.choice([100.0, 30000.0, 25000.0, 128.0]))
+    # the sampling rate is common to the probes of a case (ASSUMES); integer-valued rates (written as an int or as a
+    # float literal, per probe), calibrated non-integer rates (SpikeGLX style), rates below 1 and rates whose repr
+    # needs all 17 digits -- params.py carries repr(rate), which round-trips exactly
+    rate = o.pop('rate', rng.choice(RATES))
+    lits = o.pop('rate_lits', None)
+    if lits is None:
+        lits = [rng.choice(['float', 'float', 'int']) for _ in sizes]
     pres = o.pop('present', None)
     if pres is None:
         pres = {}
@@ -60,7 +114,7 @@ def _case(rng, sizes, route=None, vec2d=None, **o):
         po = dict(o)
         for name in ('wm', 'wmi', 'sim'):
             po[name] = pres[name][k]
-        probes.append(M.gen_probe(rng, nc=nc, nt=nt, ns=ns, pcw=pcw, tfw=tfw, rate=rate, **po))
+        probes.append(M.gen_probe(rng, nc=nc, nt=nt, ns=ns, pcw=pcw, tfw=tfw, rate=rate, rate_lit=lits[k], **po))
     if route is None:
         route = 'merge' if rng.random() < 0.25 else 'methods'
     return {'kind': 'merge', 'inp': {'route': route, 'vec2d': bool(rng.random() < 0.3) if vec2d is None else vec2d,
@@ -106,10 +160,23 @@ def generate(tier, rng):
     cases.append(_spikes(_case(rng, [(2, 3), (1, 1), (2, 2)], route='merge', stmode='all'), [[0, 0], [0, 0], [1, 0]]))
     cases.append(_spikes(_case(rng, [(2, 3), (2, 2)], route='methods', stmode='all'), [[0, 2, 2], [0, 1]]))
     cases.append(_spikes(_case(rng, [(2, 2), (2, 3)], route='methods', stmode='all'), [[0, 1], [0, 1, 0]]))
+    # sampling rate kept exactly: non-integer rates, int vs float literals, rates below 1
+    cases.append(_case(rng, [(2, 1), (1, 2)], route='methods', rate=30000.207, rate_lits=['float', 'float']))
+    cases.append(_case(rng, [(2, 2), (2, 1), (1, 1)], route='merge', rate=29999.954, rate_lits=['float'] * 3))
+    cases.append(_case(rng, [(1, 1), (2, 2)], route='methods', rate=30000.0, rate_lits=['int', 'float']))
+    cases.append(_case(rng, [(1, 1), (2, 2)], route='methods', rate=30000.0, rate_lits=['float', 'int']))
+    cases.append(_case(rng, [(2, 1), (1, 1)], route='methods', rate=0.5, rate_lits=['float', 'float']))
+    cases.append(_case(rng, [(1, 2)], route='methods', rate=0.1, rate_lits=['float']))
+    cases.append(_case(rng, [(1, 1), (1, 1)], route='methods', rate=29999.999999999996, rate_lits=['float', 'float']))
+    cases.extend(_boundary_cases(rng, tier))
     if tier == 'search':
         for _ in range(1200):
             k = rng.randint(1, 5)
             cases.append(_case(rng, [(rng.randint(1, 6), rng.randint(1, 4)) for _ in range(k)]))
+        for _ in range(60):
+            k = rng.choice([2, 3])
+            cases.append(_case(rng, [(rng.randint(1, 3), rng.choice([1, 3, 40, 63, 64, 65, 70, 128, 130])) for _ in range(k)],
+                               ns=2, pcw=1, tfw=1, present=_none(k)))
         return cases
     quick = tier == 'quick'
     kmax = 3 if quick else 4
@@ -222,6 +289,18 @@ def dist(case, obs):
     out.append('unused_trailing_templates_in_nonlast_probe=%s' % any(max(st) + 1 < len(p['tmpl']) for p, st in zip(ps[:-1], sts[:-1])))
     out.append('unused_trailing_templates_in_last_probe=%s' % (max(sts[-1]) + 1 < len(ps[-1]['tmpl'])))
     out.append('unused_middle_templates=%s' % any(len(set(st)) < max(st) + 1 for st in sts))
+    r = float(ps[0]['rate'])
+    out.append('rate=%s' % ('below_1' if r < 1 else 'integer' if r == int(r) else 'non_integer'))
+    lits = set(M.rate_literal(p).lstrip('-').isdigit() for p in ps)
+    out.append('rate_literals=%s' % ('mixed' if len(lits) > 1 else 'int' if True in lits else 'float'))
+    out.append('n_samples=%d' % len(ps[0]['tmpl'][0]))
+
+    def bucket(n):
+        return '1..4' if n <= 4 else '5..62' if n < 63 else '63..65' if n <= 65 else '66..127' if n < 127 else '127..'
+    out.append('max_templates=' + bucket(max(nts)))
+    out.append('max_channels=' + bucket(max(ncs)))
+    out.append('over_64_templates_remainder_then_more=%s' % any(
+        nts[i] > 64 and nts[i] % 64 and nts[i + 1] > nts[i] % 64 for i in range(len(ps) - 1)))
     return out
 
 
@@ -239,6 +318,33 @@ def _drop_channel(p):
     for name in ('wm', 'wmi'):
         if p.get(name) is not None:
             p[name] = [row[:-1] for row in p[name][:-1]]
+    return p
+
+
+def _keep_templates(p, n):
+    """the probe with its first n templates (n >= 1)"""
+    p = copy.deepcopy(p)
+    p['tmpl'] = p['tmpl'][:n]
+    p['pc'] = p['pc'][:n]
+    p['tf'] = [[min(v, n - 1) for v in row] for row in p['tf'][:n]]
+    if p.get('st') is not None:
+        st = [v for v in p['st'] if v < n]
+        p['st'] = st if len(st) >= 2 else (st + [n - 1, n - 1])[:2]
+    if p.get('sim') is not None:
+        p['sim'] = [row[:n] for row in p['sim'][:n]]
+    return p
+
+
+def _keep_channels(p, n):
+    """the probe with its first n channels (n >= 1)"""
+    p = copy.deepcopy(p)
+    p['cm'] = p['cm'][:n]
+    p['pos'] = p['pos'][:n]
+    p['tmpl'] = [[row[:n] for row in t] for t in p['tmpl']]
+    p['pc'] = [[min(v, n - 1) for v in row] for row in p['pc']]
+    for name in ('wm', 'wmi'):
+        if p.get(name) is not None:
+            p[name] = [row[:n] for row in p[name][:n]]
     return p
 
 
@@ -266,6 +372,13 @@ def shrink(case):
     if len(ps) > 1:
         for k in range(len(ps)):
             yield mk(probes=ps[:k] + ps[k + 1:])
+    # large probes: halve / cut the template and channel counts before anything else
+    for k, p in enumerate(ps):
+        nt, nc = len(p['tmpl']), len(p['cm'])
+        for n in sorted(set(x for x in (nt // 2, nt - 16, nt - 4) if 1 <= x < nt - 1)):
+            yield mk(probes=ps[:k] + [_keep_templates(p, n)] + ps[k + 1:])
+        for n in sorted(set(x for x in (nc // 2, nc - 16, nc - 4) if 1 <= x < nc - 1)):
+            yield mk(probes=ps[:k] + [_keep_channels(p, n)] + ps[k + 1:])
     if inp['route'] != 'methods':
         yield mk(route='methods')
     if inp['vec2d']:
@@ -293,8 +406,9 @@ def shrink(case):
     if len(ps[0]['tf'][0]) > 1:
         yield mk(probes=[dict(p, tf=[r[:1] for r in p['tf']]) for p in ps])
     for k, p in enumerate(ps):
-        for key, dflt in (('cm_dtype', 'int32'), ('pos_dtype', 'float64'), ('tmpl_dtype', 'float32'), ('offset', 0)):
-            if p[key] != dflt:
+        for key, dflt in (('cm_dtype', 'int32'), ('pos_dtype', 'float64'), ('tmpl_dtype', 'float32'), ('offset', 0),
+                          ('rate_lit', 'float')):
+            if p.get(key, dflt) != dflt:
                 yield mk(probes=ps[:k] + [dict(p, **{key: dflt})] + ps[k + 1:])
         if p['cm'] != list(range(len(p['cm']))) or p['ncd'] != len(p['cm']):
             yield mk(probes=ps[:k] + [dict(p, cm=list(range(len(p['cm']))), ncd=len(p['cm']))] + ps[k + 1:])
